@@ -102,6 +102,11 @@ def c13(proj, rep, tier):
     rep.floor('F7 entr sites', n7, 1)
     n = round3b.v3(proj, rep, ['numqi.entangle.eof', 'numqi.entangle.measure'] if tier == 'quick' else None)
     rep.floor('V3 rank truncations of the target spectrum', n, 4)
+    M13 = ['numqi.entangle.eof', 'numqi.entangle.measure', 'numqi.entangle._misc'] if tier == 'quick' else None
+    n = round3b.zs1(proj, rep, M13)
+    rep.floor('ZS1 closed-form measure functions scanned for tolerance-gated zeros', n, 6)
+    n = round3b.v4(proj, rep, ['numqi.entangle.eof', 'numqi.entangle.measure'] if tier == 'quick' else None)
+    rep.floor('V4 convex-roof forward methods', n, 4)
     rep.assume('ranges, local-unitary invariance, monotone relations between the measures, "non-zero iff NPT" and loss >= closed form '
                'numerically are value-level: not decided. The GME model builds its contraction lists from len(dim_list) (not literal): '
                'only clauses (a),(b) are decided for it.')
@@ -274,6 +279,11 @@ def c12(proj, rep, tier):
     rep.floor('RO1 reshape / ravel calls in channel + utils', n, 30)
     n = kdefects.al2(proj, rep, ['numqi.channel._internal'])
     rep.floor('AL2 probe calls of user channel callables', n, 2)
+    n = round3b.ch1_ln1(proj, rep)
+    rep.floor('CH1 probe loops + LN1 linear application functions', n, 6)
+    round3b.dt9(proj, rep, ['numqi.gellmann', 'numqi.channel', 'numqi.utils'] if tier == 'quick' else None)
+    n6, n7 = round3b.f6_f7(proj, rep, ['numqi.utils', 'numqi.channel'])
+    rep.floor('F6 functions of utils + channel scanned (sqrtm / entr of a raw spectrum)', n6, 30)
     n = hermitian.hm1(proj, rep, ['numqi.utils', 'numqi.channel._internal'])
     rep.floor('HM1 self-adjoint compositions / spectral reconstructions in utils + channel', n, 5)
     n = ownership.o3(proj, rep, ['numqi.channel._internal'])
@@ -307,6 +317,9 @@ def c15(proj, rep, tier):
     rep.floor('UP1 / FW1 parameters checked (SU(2)/SO(3) modules)', n, 30)
     n = round3b.dt6(proj, rep, G15)
     rep.floor('DT6 angle buffers allocated with zeros_like', n, 2)
+    round3b.al4(proj, rep, G15)
+    n = round3b.ag6(proj, rep)
+    rep.floor('AG6 comparisons with the gimbal tolerance in the angle extraction', n, 2)
     rep.assume('numerical accuracy of the recovered angles, the SU(2)->SO(3) homomorphism, Wigner-d and Clebsch-Gordan relations are '
                'value-level: not decided. Decided: batches are converted element-wise (MS1); full-circle angles are never recovered from '
                'one arccos alone (AG1); arccos arguments that reach 1+ulp at degenerate rotations are clipped (F3).')
@@ -326,6 +339,9 @@ def c16(proj, rep, tier):
     numeric.f2(proj, rep, ['numqi.gellmann'])
     n = round3b.f9(proj, rep, ['numqi.gellmann'])
     rep.floor('F9 square roots in numqi.gellmann scanned for norm-difference cancellation', n, 2)
+    round3b.ax2(proj, rep, ['numqi.gellmann'] if tier == 'quick' else None)
+    round3b.dt9(proj, rep, ['numqi.gellmann'] if tier == 'quick' else None)
+    nopen, nfun = round3b.ax1_sm1_sinc1_vm1(proj, rep, ['numqi.gellmann'])
     nsite, ntyped = gellmann.g2(proj, rep, None)
     rep.floor('G2 synthesis call sites in the package', nsite, 20)
     rep.floor('G2 projected sites typed', ntyped, 10)
@@ -426,6 +442,8 @@ def c19(proj, rep, tier):
     n = ownership.o2(proj, rep)
     rep.floor('O2 cached functions examined', n, 20)
     rep.assume('Q4 assumes the simulator applies each recorded gate as the operator of its registry entry (subject of C03)')
+    n = round3b.al5_nq1_ce1(proj, rep, ['numqi.qec'] if tier == 'quick' else None)
+    rep.floor('AL5 / NQ1 / CE1 sweep: functions scanned (qec)', n, 20)
     rep.assume('asymmetric error sets and weight-enumerator sum rules are value-level: not decided')
 
 
@@ -466,6 +484,10 @@ def c11(proj, rep, tier):
     rep.floor('M1 bit-order obligation', n, 1)
     n = measure.m3(proj, rep)
     rep.floor('M3 Born-rule / collapse structure obligations', n, 7)
+    n = round3b.d7(proj, rep)
+    rep.floor('D7 dispatch arms of Circuit.apply_state', n, 4)
+    n = round3b.tr1(proj, rep, ['numqi.sim'] if tier == 'quick' else None)
+    rep.floor('TR1 functions with an int-capable parameter (simulator)', n, 10)
     n = kdefects.pu2(proj, rep, ['numqi.sim.circuit.Circuit'])
     rep.floor('PU2 Circuit builder methods that take arguments', n, 10)
     n = ownership.pu1(proj, rep, ['numqi.sim.state'])
@@ -503,6 +525,8 @@ def c18(proj, rep, tier):
     rep.floor('F8 computed radicands with a clamp in reach', n, 1)
     n = round3b.ex1(proj, rep, ['numqi.state._internal', 'numqi.entangle.upb', 'numqi.dicke'] if tier == 'quick' else None)
     rep.floor('EX1 asserted-enumeration dispatch chains (catalogue)', n, 1)
+    n6, n7 = round3b.f6_f7(proj, rep, ['numqi.utils', 'numqi.state._internal'])
+    rep.floor('F7 entr sites in utils + state catalogue', n7, 2)
     n = round3b.rp1(proj, rep, ['numqi.entangle.upb.load_upb'])
     rep.floor('RP1 two-party block lists built from role-suffixed parameters', n, 1)
 
@@ -534,6 +558,9 @@ def c20(proj, rep, tier):
     round3b.dt4(proj, rep, G20)
     n = round3b.ex1(proj, rep, G20)
     rep.floor('EX1 asserted-enumeration dispatch chains (matrix_space)', n, 3)
+    nfun, nre = round3b.fs1_ar4_t4(proj, rep, G20)
+    rep.floor('FS1 / AR4 / T4 sweep: functions scanned (matrix_space)', nfun, 30)
+    rep.floor('AR4 grouped reshapes of multipartite tensors', nre, 2)
 
 
 def c17(proj, rep, tier):
@@ -554,6 +581,12 @@ def c17(proj, rep, tier):
     rep.floor('AR3 call sites with bare-name arguments in dicke + utils', n, 7)
     n = round3b.dom1(proj, rep)
     rep.floor('DOM1 admissible-domain lower bounds of the Dicke table constructors', n, 6)
+    n = round3b.nr1_extra(proj, rep)
+    rep.floor('NR1 reduction maps that stay linear', n, 2)
+    n = round3b.mr2(proj, rep)
+    rep.floor('MR2 radix keys in numqi.dicke', n, 2)
+    n = round3b.tr1(proj, rep, ['numqi.utils', 'numqi.dicke'] if tier == 'quick' else None)
+    rep.floor('TR1 functions with an int-capable parameter (utils + dicke)', n, 3)
     rep.assume('orthonormality / permutation invariance of the Dicke vectors and the occupation-number identity itself '
                '(<r|D_a><D_b|s> summed over the other copies) are value-level: not decided')
 
@@ -610,6 +643,8 @@ def c14(proj, rep, tier):
     rep.floor('SO1 / FZ1 / ID1 / EV1 lint sweep: functions scanned (group modules)', n, 25)
     n = kdefects.up1_fw1(proj, rep, G14)
     rep.floor('UP1 parameters read beyond their own normalisation (group modules)', n, 40)
+    n = round3b.dt8_ov1(proj, rep, G14)
+    rep.floor('DT8 / OV1 sweep: functions scanned (group modules)', n, 25)
     rep.assume('that a computed table satisfies the group axioms, that irreducible blocks are unitary homomorphisms with sum d^2 = |G|, that the Young-diagram '
                'list is the set of partitions and that the tableau enumeration matches the hook-length count are value-level: not decided')
 
